@@ -14,6 +14,8 @@ WS = [0x9, 0xA, 0xB, 0xC, 0xD, 0x1C, 0x1D, 0x1E, 0x1F, 0x20, 0x85, 0xA0, 0x1680,
 MARKS = [0x200E, 0x200F]
 EDGE_POOL = [" ", " ", " ", "_", "_", "\t", "\n", "‎", "‏", "‎", "\xa0", "　", "\x1c", "\x85", " ", "\r", "\x0c"]
 WS_POOL = [" ", " ", "_", "\t", "\xa0", " ", "\n"]
+# one space of a name written as a run of ' ' / '_' of length 1..9 (any mix)
+SPACE_RUNS = [" ", " ", "_", "  ", "__", " _", "_ _", "   ", "___", "    ", "_ __", "  _  ", "______", " _ _ _ ", "         "]
 # letters that exercise the case tables: expansions (ß ŉ ǰ ﬁ), title case (ǅ), İ / ı, sigma forms, ſ, µ, Kelvin, non-BMP
 # (Deseret 𐐨/𐐀, Adlam), combining ypogegrammeni, emoji; plus plain ASCII and digits and the characters - . ~ % '
 LETTERS = ["ß", "ŉ", "ǆ", "ǅ", "Ǆ", "İ", "ı", "σ", "ς", "Σ", "ſ", "µ", "K", "ﬁ", "ǰ", "ͅ", "\U00010428", "\U00010400",
@@ -70,6 +72,9 @@ class Gen:
                 if i in star and a:
                     lst.append((i, a, "alias"))
             self.names[lang] = (star, lst)
+        # every namespace name/alias ANY site knows: titles carrying a name of another site ("Portal:x" on a site without
+        # portal namespace) must be read against the site's own table
+        self.all_names = sorted({n for lang in self.langs for _i, n, _k in self.names[lang][1]})
 
     # ---- pieces
     def edge(self, p0=0.55):
@@ -86,7 +91,7 @@ class Gen:
 
     def spaces(self, s):
         r = self.rng
-        return "".join(c if c != " " else r.choice([" ", " ", "_", "  ", "__", " _", "_ _", "   "]) for c in s)
+        return "".join(c if c != " " else r.choice(SPACE_RUNS) for c in s)
 
     def casevar(self, name):
         r = self.rng
@@ -161,6 +166,26 @@ class Gen:
         star, names = self.names[lang]
         k = r.random()
         nsp = r.choice([2, 3, 4, 6])
+        if k < 0.14:
+            # a namespace name taken from the pool of ALL sites, asked of two or three sites one after the other: each site
+            # must answer from its own table (expected value: vt/harness/c12_ref.canon on the site's own JSON)
+            n = r.choice(self.all_names)
+            owners = [lg for lg in self.langs if any(m.lower() == n.lower() for _i, m, _k in self.names[lg][1])]
+            others = [lg for lg in self.langs if lg not in owners]
+            langs = [lang]
+            if owners:
+                langs.append(r.choice(owners))
+            if others:
+                langs.append(r.choice(others))
+            r.shuffle(langs)
+            p0 = self.remainder(allow_colon=False) or "x"
+            sp = []
+            for _ in range(r.choice([1, 2, 3])):
+                sp.append(self.edge(0.8) + self.lead_colons() + self.spaces(self.casevar(n)) + self.wsrun() + ":" + self.edge(0.8)
+                          + self.spaces(r.choice(self.first_letter_variants(p0))) + self.edge(0.8))
+            sp.append(n + ":" + p0)
+            return {"kind": "foreign", "lang": langs[0], "langs": langs, "dns": dns, "spellings": sp, "expect": None}
+        k = r.random()
         if k < 0.6:
             # namespaced title
             nsid = r.choice(sorted({i for i, _n, _k in names}))
